@@ -70,6 +70,32 @@ class BFCase:
         return f"{pre}{self.kind} {a} {self.tag} {{ {' '.join(body)} }};{post}"
 
 
+class TplCase(BFCase):
+    """The same record as a C++ CLASS TEMPLATE (clang reports no field offsets for a dependent record, so bindgen places the
+    bit-fields itself), instantiated with char; the template parameter is the type of a trailing member (the bit-fields start at offset 0, where the missing alignment of the dependent record does not move them)."""
+    lang = "cpp"
+
+    def __init__(self, tag, attr, members):
+        BFCase.__init__(self, tag, "struct", attr, members)
+        self.cid = "tpl-" + self.cid
+
+    def c_name(self):
+        return f"{self.tag}<char>"
+
+    def rust_ty(self):
+        return f"A_{self.tag}"
+
+    def rust_alias(self):
+        return f"type A_{self.tag} = b::{self.tag}<::std::os::raw::c_char>;"
+
+    def source(self):
+        pre, a, post = next((p, x, q) for (k, p, x, q) in ATTRS if k == self.attr)
+        inner = BFCase.source(self)
+        body = inner[inner.index("{") + 1:inner.rindex("}")]
+        body = body.replace("_Bool", "bool")
+        return f"{pre}template <class T> struct {a} {self.tag} {{ {body} T tpl_t; }};{post}\nstruct Use_{self.tag} {{ {self.tag}<char> x; }};"
+
+
 def values(base, width):
     _, signed, bits = BASES[base]
     if base == "bool":
@@ -191,7 +217,9 @@ def rust_program(cases, idx, bpath, impls):
         if not need <= methods:
             missing[c.tag] = f"accessors missing: {sorted(need - methods)[:4]}"
             continue
-        X = f"b::{c.tag}"
+        X = c.rust_ty() if hasattr(c, "rust_ty") else f"b::{c.tag}"
+        if hasattr(c, "rust_alias"):
+            out.append(c.rust_alias() + f" /*{c.tag}*/")
         # one function per (case, field): a panic (debug assertion in the accessor) loses only that field's transcript
         for fi, (f, b, w) in enumerate(bfs):
             body = []
@@ -235,15 +263,23 @@ def run(ck, only=None):
     wd = os.path.join(ck.wd, "records")
     os.makedirs(wd, exist_ok=True)
     cases = family(ck.tier, ck.seed)
+    # the same records as C++ class templates (structs under plain / packed attributes; a stable third in the quick tier)
+    tpl = []
+    for c in cases:
+        if c.kind == "struct" and c.attr in ("plain", "packed") and (ck.tier == "thorough" or int(common.sha(c.cid), 16) % 3 == 0):
+            tpl.append(TplCase("K" + str(900000 + int(c.tag[1:])), c.attr, c.members))
     if only:
-        cases = [c for c in cases if c.cid == only.get("cid")]
+        cases = [c for c in cases + tpl if c.cid == only.get("cid")]
+        tpl = [c for c in cases if isinstance(c, TplCase)]
+        cases = [c for c in cases if not isinstance(c, TplCase)]
     B = 120
-    batches = [(f"r{i // B}", cases[i:i + B]) for i in range(0, len(cases), B)]
+    batches = [(f"r{i // B}", cases[i:i + B]) for i in range(0, len(cases), B)] + [(f"t{i // B}", tpl[i:i + B]) for i in range(0, len(tpl), B)]
     jobs = []
     for name, cs in batches:
-        hp = os.path.join(wd, f"{name}.h")
+        cpp = name.startswith("t")
+        hp = os.path.join(wd, f"{name}.{'hpp' if cpp else 'h'}")
         open(hp, "w").write("enum bfe { BFE_A, BFE_B = 1 };\n" + TYPEDEFS + "\n".join(c.source() for c in cs) + "\n")
-        jobs.append({"id": name, "args": [hp, "--formatter", "prettyplease", "--no-layout-tests"], "inventory": True, "timeout": 180})
+        jobs.append({"id": name, "args": [hp, "--formatter", "prettyplease", "--no-layout-tests"] + (["--", "-x", "c++", "-std=c++14"] if cpp else []), "inventory": True, "timeout": 180})
     gen = common.run_jobs(jobs, wd, timeout=180)
 
     def one(b):
@@ -252,10 +288,12 @@ def run(ck, only=None):
         g = gen[name]
         if g["status"] != "ok":
             return [(c, "generation-failed", str(g.get("err") or g.get("panic"))[:200], None) for c in cs]
-        cp = os.path.join(wd, f"{name}.c")
-        open(cp, "w").write(c_program(cs, f"{name}.h").replace("enum bfe { BFE_A, BFE_B = 1 };\n", "", 1))
+        cpp = name.startswith("t")
+        cp = os.path.join(wd, f"{name}.{'cc' if cpp else 'c'}")
+        ctext = c_program(cs, f"{name}.{'hpp' if cpp else 'h'}").replace("enum bfe { BFE_A, BFE_B = 1 };\n", "", 1)
+        open(cp, "w").write(ctext.replace("_Bool", "bool") if cpp else ctext)
         exe = os.path.join(wd, f"{name}_c")
-        rc, _, err = common.clang(["-std=gnu11", "-w", "-O0", "-o", exe, cp], cwd=wd)
+        rc, _, err = common.clang((["-x", "c++", "-std=c++14"] if cpp else ["-std=gnu11"]) + ["-w", "-O0", "-o", exe, cp], cwd=wd)
         if rc != 0:
             raise common.Machinery(f"C03b C program does not compile: {err[:800]}")
         cW, cR = parse(common.sh([exe], timeout=300).stdout.decode())
@@ -265,7 +303,7 @@ def run(ck, only=None):
         impls = {}
         for it in g["inventory"]["items"]:
             if it["kind"] == "impl" and it.get("trait") is None:
-                impls.setdefault(it["self_ty"], set()).update(x["name"] for x in it["items"] if x["kind"] == "fn")
+                impls.setdefault(it["self_ty"].split("<")[0].strip(), set()).update(x["name"] for x in it["items"] if x["kind"] == "fn")
         live = list(cs)
         rW = rR = None
         for attempt in range(4):
@@ -293,6 +331,7 @@ def run(ck, only=None):
             live = [c for c in live if c.tag not in tags]
         if rW is None:
             return res
+        size_only = set()
         for c in live:
             bfs = c.bitfields()
             for fi, (f, b, w) in enumerate(bfs):
@@ -306,6 +345,12 @@ def run(ck, only=None):
                         cw = cW.get(("W", c.tag, str(fi), str(vi), fill))
                         for mode, rk in (("W", "R"), ("WR", "RR")):
                             rw = rW.get((mode, c.tag, str(fi), str(vi), fill))
+                            if isinstance(c, TplCase) and cw and rw and len(cw) > len(rw) and cw.startswith(rw) and set(cw[len(rw):]) <= set(f"{int(fill):02x}"):
+                                # a class template's Rust type can be SHORTER than the instantiation (no layout is known for the
+                                # dependent record): a size defect (C02's subject, recorded once as a finding), not a bit placement one.
+                                # The common prefix is what the accessors touch; C leaves the rest at the fill value.
+                                size_only.add(c.cid)
+                                rw = cw
                             if cw != rw:
                                 classes.add("store")
                                 probs = probs or f"{'setter' if mode == 'W' else 'raw setter'} of {f} ({BASES[b][0]}:{w}) value {v} on 0x{int(fill):02x}-filled object: C bytes {cw} Rust bytes {rw}"
@@ -329,6 +374,9 @@ def run(ck, only=None):
                         bits = int.from_bytes(bytes.fromhex(allone), "little")
                         off = (bits & -bits).bit_length() - 1 if bits else None
                     res.append((c, f"field {f}", probs, (off, w, "+".join(sorted(classes)))))
+        for c in live:
+            if c.cid in size_only:
+                res.append((c, "template-record-shorter-than-instantiation", "the Rust type of the class template is smaller than the C++ instantiation (accessors agree on the common prefix)", (None, 0, "tpl-size")))
         return res
 
     for name, cs in batches:
@@ -344,7 +392,9 @@ def run(ck, only=None):
                 continue
             seen.add(key)
             pred = None
-            if ow and ow[2] == "sign-extension":
+            if ow and ow[2] == "tpl-size":
+                pred = "class-template-record-without-layout-is-shorter"
+            elif ow and ow[2] == "sign-extension":
                 pred = "signed-bitfield-no-sign-extension"
             elif ow and ow[0] is not None and ow[0] % 8 + ow[1] > 64:
                 pred = "needs-ninth-byte"
